@@ -49,6 +49,10 @@ def base(rnd):
     if rnd.random() < 0.5:
         sil = '~mask' if rnd.random() < 0.5 else 'verbose=~mask'
         spec.append({'t': 'transform', 'fields': {'image': [fresh(), ['image', sil]]}, 'params': {}, 'inherit': True})
+    # a field bound with two keyword arguments, written in non-alphabetical order
+    if rnd.random() < 0.45:
+        f = rnd.choice(FIELDS)
+        spec.append({'t': 'transform', 'fields': {f: [fresh(), [f, 'scale=' + rnd.choice(FIELDS), 'offset=' + rnd.choice(FIELDS)]]}, 'params': {}, 'inherit': True})
     # a Filter at the end: the hash of `ids` then holds the STATIC hash of everything above it
     if rnd.random() < 0.5:
         sympool.TABLE['t011'] = lambda *a: True
@@ -99,6 +103,16 @@ def rewrites(spec, fresh, rnd, tmp):
     out.append(('insert-ram', lambda: P.build(spec[:pos] + [{'t': 'ram', 'names': None, 'size': rnd.choice([None, 2])}] + spec[pos:], [])[0]))
     out.append(('insert-disk', lambda: P.build(spec[:pos] + [{'t': 'disk', 'names': FIELDS, 'root': 0}] + spec[pos:], [tmp])[0]))
     out.append(('insert-columns', lambda: P.build(spec[:pos] + [{'t': 'columns', 'names': FIELDS, 'root': 0, 'shard': rnd.choice([None, 2])}] + spec[pos:], [tmp + '_c'])[0]))
+    kws = [i for i, d in enumerate(spec) if d['t'] == 'transform' and any(sum('=' in a and not a.split('=', 1)[1].startswith('~') for a in v[1]) >= 2 for v in d['fields'].values())]
+    if kws:
+        def keyword_order():
+            sp = copy.deepcopy(spec)
+            for v in sp[kws[0]]['fields'].values():
+                pos = [a for a in v[1] if '=' not in a]
+                kw = [a for a in v[1] if '=' in a]
+                v[1] = pos + list(reversed(kw))
+            return P.build(sp, [])[0]
+        out.append(('keyword-order', keyword_order))
     out.append(('insert-inherit-all', lambda: P.build(spec[:pos] + [{'t': 'transform', 'fields': {}, 'params': {}, 'inherit': True}] + spec[pos:], [])[0]))
     out.append(('append-checkids', lambda: P.build(spec + [{'t': 'checkids'}], [])[0]))
     out.append(('append-keep-all', lambda: P.build(spec + [{'t': 'keep', 'ids': IDS}], [])[0]))
@@ -106,7 +120,12 @@ def rewrites(spec, fresh, rnd, tmp):
     out.append(('merge-singleton', lambda: Merge(P.build(spec, [])[0])))
     # change what feeds a Silent argument
     sil = [i for i, d in enumerate(spec) if d['t'] == 'transform' and any('~' in a for v in d['fields'].values() for a in v[1])]
-    if sil:
+    def reads_mask(d):
+        # a non-silent use of `mask` (positional or by keyword), or a Filter on it
+        if d['t'] == 'filter':
+            return 'mask' in d['pred'][1]
+        return d['t'] == 'transform' and any(a == 'mask' or a.endswith('=mask') for v in d['fields'].values() for a in v[1])
+    if sil and not any(reads_mask(d) for d in spec[sil[0]:]):
         def silent_change():
             sp = copy.deepcopy(spec)
             # another function for `mask` right before the layer with the Silent argument
